@@ -429,21 +429,30 @@ def rule_exec_order(ctx, rep, rule_id="R-EXEC-ORDER", declare=True):
         if loops and ret.lineno > loops[0].lineno:
             continue
         bad = None
-        for pol, txt in fa.must_at(ret):
-            if txt.startswith(("EV:", "MATCH:", "ITER:")):
-                continue
-            try:
-                e = r.expand(ast.parse(txt, mode="eval").body)
-            except SyntaxError:
-                continue
-            if isinstance(e, ast.Compare) and len(e.ops) == 1:
-                e = e.left  # `x is None`, `len(x) == 0`, `x == []`: still a statement about x
-            while isinstance(e, ast.Call) and call_name(e) in ("len", "list", "bool") and e.args:
-                e = e.args[0]
-            e = r.expand(e) if isinstance(e, ast.Name) else e
-            whole = (isinstance(e, ast.Attribute) and e.attr == "files_to_analyze") or (isinstance(e, ast.Name) and e.id in ac.params())
-            if not whole:
-                bad = txt
+        st_ret = fa.state_at(ret)
+        # every way of getting here (each alternative of the state) rests on "no files at all" or "nothing selected"
+        for must, _may in (st_ret.parts if st_ret is not None else []):
+            found_whole = False
+            others = []
+            for pol, txt in must:
+                if txt.startswith(("EV:", "MATCH:", "ITER:")):
+                    continue
+                try:
+                    e = ast.parse(txt, mode="eval").body
+                except SyntaxError:
+                    continue
+                if isinstance(e, ast.Compare) and len(e.ops) == 1:
+                    e = e.left  # `x is None`, `len(x) == 0`, `x == []`: still a statement about x
+                while isinstance(e, ast.Call) and call_name(e) in ("len", "list", "bool") and e.args:
+                    e = e.args[0]
+                e = r.expand(e) if isinstance(e, ast.Name) else e
+                whole = (isinstance(e, ast.Attribute) and e.attr == "files_to_analyze") or (isinstance(e, ast.Name) and e.id in ac.params())
+                if whole and not pol:
+                    found_whole = True
+                elif not whole and not (isinstance(e, ast.Name) and e.id not in ac.params()) and not isinstance(e, ast.Constant):
+                    others.append(txt)  # (plain locals only carry a value derived from the conditions: they are not conditions themselves)
+            if not found_whole:
+                bad = (others[0] if others else "a condition that is neither the emptiness of files_to_analyze nor of the selection")
         rep.check(rule_id, ac.qname, ac.loc(ret), bad is None, "skip-all-guard",
                   f"apply_codemods returns before running any codemod under `{(bad or '')[:60]}`: only an empty project (files_to_analyze) or an empty selection "
                   "means there is nothing to do - find_and_fix_paths, for one, applies default excludes that tool-driven codemods ignore")
